@@ -1207,6 +1207,16 @@ def auth_matrix(rng, tier):
                 h.do(("fac_update_config", owner, nxt, shape))
                 formers.append(owner)
         cases.append(h.finish())
+    # a caller who is not the owner but holds the ENTIRE supply of the cw20 tokens it wants listed (the owner handed everything
+    # over): creation stays owner-only (C14-agent24: "an issuer may list its own token")
+    h = Hist(2, 1, 2, 3, 10 ** 9, 1000, [6, 18], "directed-matrix", "C14: sole holder of the tokens is not the owner")
+    h.do(("fac_add_native", h.owner(), 0, 6))
+    for t in (2, 3):
+        h.do(("transfer", t, USER0, USER0 + 1, h.bal(t, USER0)))
+    for a0, a1 in ((("t", 2), ("t", 3)), (("n", 0), ("t", 2)), (("t", 3), ("t", 2))):
+        h.do(("fac_create_pair", USER0 + 1, a0, a1, [USER0 + 1], 0, 0, None, None))
+    h.do(("fac_create_pair", h.owner(), ("t", 2), ("t", 3), [USER0], 0, 0, None, None))
+    cases.append(h.finish())
     return cases
 
 
@@ -1792,8 +1802,12 @@ def swap_matrix(rng, tier):
                 for named in named_set:
                     for namt in (a, a - 1, a + 1, 0):
                         # execute path
+                        # (the last one: the offered denom listed TWICE, the FIRST entry - the one the funds check reads - being
+                        # wrong; C02-agent24: the last entry read instead.  The other order, first entry right, is accepted by the
+                        # unchanged pair while the mock bank moves both entries: an artefact of the test runtime - a chain
+                        # rejects coin lists that name a denom twice - which raised an alarm on the unchanged tree and was removed)
                         for f in ([], [(named[1], namt)] if named[0] == "n" else [(0, namt)],
-                                  [(0, a)], [(0, a), (1, 3)]):
+                                  [(0, a)], [(0, a), (1, 3)]) + (([(0, a // 2), (0, a)],) if named == ("n", 0) and namt == a else ()):
                             if any(n <= 0 for _, n in f):
                                 continue
                             h.do(("swap", p, u, f, named, namt, None, None, rcv))
@@ -1951,6 +1965,17 @@ def registry_histories(rng, tier, big=False):
         h.query("walk %s" % o_line(None))
         h.query("walk %s" % o_line(30))
         h.query("walk %s" % o_line(1))
+    cases.append(h.finish())
+    # a pair created with TWO whitelist entries gets its first provision; record and self-description are compared again
+    # afterwards (C16-agent24: the pair trimmed its stored whitelist to the launcher on the first provision)
+    h = Hist(2, 2, 1, 2, 10 ** 9, 1000, [6], "directed-grid", "registry record after the first provision")
+    for d in (0, 1):
+        h.do(("fac_add_native", h.owner(), d, 6))
+    h.do(("fac_create_pair", h.owner(), ("n", 0), ("n", 1), [USER0 + 1, USER0], 0, 0, None, None))
+    for q_ in h.pairs():
+        h.do(("provide", q_, USER0, [(0, 5000), (1, 7000)], ("n", 0), 5000, ("n", 1), 7000, None, None))
+        h.do(("provide", q_, USER0 + 1, [(0, 500), (1, 700)], ("n", 0), 500, ("n", 1), 700, None, None))
+    h.query("walk %s" % o_line(None))
     cases.append(h.finish())
     # unregistered denom / denom the factory holds none of
     h = Hist(2, 3, 1, 2, 10 ** 9, 0, [6], "directed-grid", "factory holds no native balance")
